@@ -139,6 +139,25 @@ func (g *gen) execReal(c *Case) (vs []viol, outcome string) {
 		e.r.Inconclusive("cannot start server: " + err.Error())
 		return nil, "no-server"
 	}
+	if c.Poison {
+		// the failing calls go over raw h2c (a grpc-go client cannot send
+		// a damaged message); their own outcome is not judged
+		for i := 0; i < 3; i++ {
+			p := poisonCase(c)
+			p.Lane, p.Abort, p.Trunc = "h2c", "end", len(p.Body)
+			if p.T == "ws" || p.T == "http" {
+				p.T = "grpc"
+			}
+			pid, prc := e.open(p.script())
+			g.doH2C(p, srv, clientsFor(srv), pid, prc)
+			select {
+			case <-prc.done:
+			case <-time.After(2 * time.Second):
+			}
+			e.drop(pid)
+			e.r.Count("failed_decompression_calls", 1)
+		}
+	}
 	id, rc := e.open(c.script())
 	defer e.drop(id)
 	cl := clientsFor(srv)
@@ -233,9 +252,9 @@ func (c *Case) realRequest(ctx context.Context, base, id string, body io.Reader)
 	}
 	if c.T == "grpc" {
 		req.Header.Set("Te", "trailers")
-		if c.Codec == "gzip" {
-			req.Header.Set("Grpc-Encoding", "gzip")
-		}
+	}
+	if c.T != "http" && c.Codec == "gzip" {
+		req.Header.Set("Grpc-Encoding", "gzip")
 	}
 	return req, nil
 }
